@@ -323,9 +323,15 @@ pub fn run(o: &Opts) -> i32 {
     let mut lens = [0u64; 6];
     let mut samples: Vec<String> = vec![];
     let mut total = 0u64;
+    // the previous answer of a session may be astronomically large once an expensive line was evaluated:
+    // from then on every line that mentions it is expensive too
+    let mut session_big = false;
     let mut emit = |q: &str, kind: &'static str, req: &mut dyn Write, aux: &mut dyn Write| {
         let q: String = q.chars().take(500).collect();
-        let class = classify(&q);
+        if kind == "session-start" { session_big = false; return; }
+        let mut class = classify(&q);
+        if class == "expensive" { session_big = true; }
+        else if session_big && (q.to_lowercase().contains("ans") || q.contains('_')) { class = "expensive"; }
         writeln!(req, "{}", req_line_t(&q)).unwrap();
         writeln!(aux, "{}", json!({"k": "q", "kind": kind, "class": class})).unwrap();
         *kinds.entry(kind).or_insert(0) += 1;
@@ -337,8 +343,10 @@ pub fn run(o: &Opts) -> i32 {
     };
     // corpus: every seed once, then the regression inputs of past findings
     writeln!(req, "reset").unwrap(); writeln!(aux, "{}", json!({"k": "reset"})).unwrap();
+    emit("", "session-start", &mut req, &mut aux);
     for q in &seeds { emit(q, "seed", &mut req, &mut aux); }
     writeln!(req, "reset").unwrap(); writeln!(aux, "{}", json!({"k": "reset"})).unwrap();
+    emit("", "session-start", &mut req, &mut aux);
     for q in ["\\u", "\\u{110000}", "\\uffffffffff", "1 m -> m << 1", "1 -> 2 >> 1", "now -> +25:00", "now -> -24:00", "#2020-01-01 00:00:00.0000000000#", "#2020-01-01 00:00:00 +999999999:00#",
               "1 -> digits 2147483647", "1 -> digits 4294967296", "1 m -> m / (0 + 1)", "1 -> (0+1)^-1", "2^ln(-1)", "1 << ln(-1)", "water + gold", "mass of (water + 1 m)", "((m^2147483647)^2147483647)^3",
               "helium + 2 kg helium", "2 mol helium + 3 m neon", "water + 1", "water - gold", "water * gold", "water / gold", "2 water + 3 water", "1 kg water + 1 m^3 water", "gold + 2 mol gold -> kg",
@@ -353,6 +361,7 @@ pub fn run(o: &Opts) -> i32 {
     }
     for _ in 0..nsess {
         writeln!(req, "reset").unwrap(); writeln!(aux, "{}", json!({"k": "reset"})).unwrap();
+        emit("", "session-start", &mut req, &mut aux);
         let len = 10 + rng.below(40);
         for _ in 0..len {
             match rng.below(20) {
